@@ -96,6 +96,7 @@ type Run struct {
 	start         time.Time
 	units         []*UnitResult
 	survey        bool
+	onlySet       map[string]bool
 	unclaimed     []string
 	canarySat     int
 	canaryUnknown int
@@ -113,7 +114,11 @@ func (r *Run) selectDecls() []*Decl {
 		if r.prop != "" && !hasTag(d.Tags, r.prop) {
 			continue
 		}
-		if r.only != "" && !strings.Contains(r.w.unitName(d), r.only) {
+		if r.onlySet != nil {
+			if !r.onlySet[r.w.unitName(d)] {
+				continue
+			}
+		} else if r.only != "" && !strings.Contains(r.w.unitName(d), r.only) {
 			continue
 		}
 		if d.Sweep && !r.survey {
@@ -218,7 +223,13 @@ func (r *Run) execute() int {
 				last = o
 			}
 		}
-		if last == nil {
+		allOK := true
+		for _, o := range u.Obls {
+			if o.Status != "discharged" {
+				allOK = false // a failed assert is assumed afterwards: its hypotheses are contradictory by construction
+			}
+		}
+		if last == nil || !allOK {
 			continue
 		}
 		c := &canary{u, &Obligation{Name: u.Name + "/canary", Kind: "canary", Fn: u.Name, Hyps: last.Hyps, Goal: tFalse, Reveal: last.Reveal}}
@@ -254,6 +265,7 @@ func cmdSurvey(args []string) int {
 	prop := fs.String("prop", "", "property id")
 	only := fs.String("only", "", "restrict to units whose name contains this")
 	to := fs.Int("timeout", 8, "solver timeout per stage")
+	reopen := fs.Bool("open", false, "re-survey only the units not yet verified in the existing ledger")
 	fs.Parse(args)
 	w, err := loadWorld()
 	if err != nil {
@@ -262,6 +274,24 @@ func cmdSurvey(args []string) int {
 	}
 	w.UnitBudget = 30
 	run := &Run{w: w, prop: *prop, tier: "quick", timeout: *to, start: time.Now(), only: *only, survey: true}
+	if *reopen {
+		run.onlySet = map[string]bool{}
+		var old []struct {
+			Unit   string `json:"unit"`
+			Status string `json:"status"`
+		}
+		if ob, err := os.ReadFile(filepath.Join(verifDir, "baseline", "sweep_"+*prop+".json")); err == nil {
+			json.Unmarshal(ob, &old)
+		}
+		for _, e := range old {
+			if e.Status != "verified" {
+				run.onlySet[e.Unit] = true
+			}
+		}
+		if *only == "" {
+			*only = "(open units)"
+		}
+	}
 	run.execute()
 	type entry struct {
 		Unit        string `json:"unit"`
@@ -293,6 +323,32 @@ func cmdSurvey(args []string) int {
 		out = append(out, e)
 	}
 	os.MkdirAll(filepath.Join(verifDir, "baseline"), 0755)
+	if *only != "" {
+		// partial survey: merge into the existing ledger
+		var old []entry
+		if ob, err := os.ReadFile(filepath.Join(verifDir, "baseline", "sweep_"+*prop+".json")); err == nil {
+			json.Unmarshal(ob, &old)
+		}
+		fresh := map[string]entry{}
+		for _, e := range out {
+			fresh[e.Unit] = e
+		}
+		var merged []entry
+		for _, e := range old {
+			if n, ok := fresh[e.Unit]; ok {
+				merged = append(merged, n)
+				delete(fresh, e.Unit)
+			} else {
+				merged = append(merged, e)
+			}
+		}
+		for _, e := range out {
+			if _, ok := fresh[e.Unit]; ok {
+				merged = append(merged, e)
+			}
+		}
+		out = merged
+	}
 	b, _ := json.MarshalIndent(out, "", " ")
 	os.WriteFile(filepath.Join(verifDir, "baseline", "sweep_"+*prop+".json"), b, 0644)
 	fmt.Printf("survey %s: %d of %d sweep units verified\n", *prop, pass, len(out))
